@@ -456,6 +456,13 @@ def check_instance(model, st, snap, msgs):
                 if not instmodel.num_close(v, got, model.rg):
                     msgs.append("kerning/%s model %r got %r" % (key, v, got))
                 claims += 1
+    # the instance records its *full* design location (defaults filled in)
+    full = instmodel.full_location(st["loc"], model.bounds)
+    got_loc = snap["lib"].get("designspace.location")
+    want_loc = [[name, full[name]] for name in model.axis_order]
+    if got_loc is None or sorted(map(list, got_loc)) != sorted(want_loc):
+        msgs.append("lib/designspace.location model %r got %r" % (want_loc, got_loc))
+    claims += 1
     for attr, v in model.info_expect(st["loc"]).items():
         got = snap["info"].get(attr)
         if not instmodel.num_close(v, got, model.rg and attr != "italicAngle"):
